@@ -351,7 +351,7 @@ def main(tier, seed, replay=None):
     gcases = []
     if not replay or not hists:
         if replay:
-            gcases = evalcheck.replay_cases(replay)
+            gcases = [] if json.load(open(replay))["case"].get("lib_defs") else evalcheck.replay_cases(replay)
         else:
             for i in range(70 if tier == "quick" else 2500):
                 gcases.append({"id": i, "label": "general", "ast": gen_general_history(rng, rng.randrange(3, 10))})
